@@ -217,6 +217,8 @@ func runC15(r *core.Run) {
 	c15ViewGraph(r)
 	c15AttachWidths(r)
 	c15Unmasked(r)
+	c15PredViews(r)
+	c15Values(r)
 }
 
 // c15Sequences: BFS over (mask, softness) states with predicate calls and Harden/Soften.
